@@ -1,7 +1,6 @@
 //! Filesystem wrapper that numbers every call and can fail call `n` once (transient) or every call
 //! from `n` on (sticky).
 
-use crate::memfs::MemFs;
 use raindb::fs::{FileLock, FileSystem, RandomAccessFile, ReadonlyRandomAccessFile};
 use std::io::{self, Read, Seek, SeekFrom, Write};
 use std::path::{Path, PathBuf};
@@ -20,6 +19,8 @@ pub struct Ctl {
     /// description of the call that was failed first
     pub fired_what: Mutex<Option<String>>,
     pub failures: AtomicU64,
+    /// called for every numbered call with its kind (used by C17 to watch who writes when)
+    pub observer: Mutex<Option<Arc<dyn Fn(&'static str) + Send + Sync>>>,
 }
 
 impl Ctl {
@@ -33,6 +34,7 @@ impl Ctl {
             log_kinds: AtomicBool::new(false),
             fired_what: Mutex::new(None),
             failures: AtomicU64::new(0),
+            observer: Mutex::new(None),
         })
     }
 
@@ -49,6 +51,10 @@ impl Ctl {
 
     fn tick(&self, kind: &'static str, what: impl FnOnce() -> String) -> io::Result<()> {
         let n = self.calls.fetch_add(1, Ordering::SeqCst) as i64;
+        let obs = self.observer.lock().unwrap().clone();
+        if let Some(o) = obs {
+            o(kind);
+        }
         if self.log_kinds.load(Ordering::Relaxed) {
             self.kinds.lock().unwrap().push(kind);
         }
@@ -68,12 +74,12 @@ impl Ctl {
 }
 
 pub struct FaultFs {
-    pub inner: Arc<MemFs>,
+    pub inner: Arc<dyn FileSystem>,
     pub ctl: Arc<Ctl>,
 }
 
 impl FaultFs {
-    pub fn new(inner: Arc<MemFs>) -> Self {
+    pub fn new(inner: Arc<dyn FileSystem>) -> Self {
         FaultFs { inner, ctl: Ctl::new() }
     }
 }
